@@ -224,14 +224,15 @@ def e_case(c):
             for phi, e_ in errs.items():
                 if sens > 5 * (C_CONV * phi + 1e-6):
                     cls.append("bound-bites")
+                if True:
                     check(e_ <= C_CONV * phi + 1e-6, "nlse-error>C*phi_max", f"phi_max={phi}: rel err {e_:.3e} > {C_CONV * phi:.3e}; gamma*P*L={phinl:.2f} disp={disp_phase:.2f} rad steps~{steps[phi] // 2}")
             # convergence as phi_max -> 0: a 4x smaller phi_max must not leave the error where it was (asymptotic regime only)
             ps = sorted(errs, reverse=True)
             for i_, pa in enumerate(ps):
                 for pb in ps[i_ + 1:]:
                     # (only where phi_max actually governs the step: at least 3 split steps at the coarser setting)
-                    if pb <= pa / 4 and 1e-5 <= errs[pa] <= 0.3 and sens > 5 * errs[pa] and steps[pa] // 2 >= 3:
-                        cls.append("convergence-pair")
+                    if pb <= pa / 4 and 1e-5 <= errs[pa] <= 0.3 and steps[pa] // 2 >= 3:
+                        cls.append("convergence-pair" if sens > 5 * errs[pa] else "convergence-pair-insensitive")
                         check(errs[pb] <= 0.9 * errs[pa] + 1e-7, "nlse-error-does-not-shrink-with-phi_max",
                               f"phi_max {pa} -> {pb}: rel err {errs[pa]:.3e} -> {errs[pb]:.3e}; gamma*P*L={phinl:.2f} disp={disp_phase:.2f} rad")
             cls.append("nlse-sensitive" if sensitive else "nlse-insensitive")
